@@ -244,7 +244,7 @@ def real_selector_family(rep, only=None):
     rep.families.append(dict(name="C09:real-selector", cases=n, rule="real socketpair + lomond's platform selector: the descriptor is closed under the running loop by session.close() from another thread or by closing the socket object; Disconnected must follow within seconds"))
 
 
-def judge_connect(resolve_ok, create_ok, connect_ok, v6):
+def judge_connect(resolve_ok, create_ok, connect_ok, v6, secure=False):
     """one outcome pattern of the real _connect_sock against the fake socket module; (complaint or None, expected, result, log)"""
     import lomond.session as S
     import lomond.websocket as W
@@ -256,7 +256,12 @@ def judge_connect(resolve_ok, create_ok, connect_ok, v6):
         ws = W.WebSocket("ws://example.test:8080/x")
         sess = S.WebsocketSession(ws)
         try:
-            sock = sess._connect_sock("example.test", 8080)
+            if secure:
+                # wss:// (or an https proxy): the socket is wrapped before connect(); the wrapping itself is not under test here
+                sess._wrap_socket = lambda sock, host: sock
+                sock = sess._connect_sock("example.test", 8080, ssl=True)
+            else:
+                sock = sess._connect_sock("example.test", 8080)
             res = "ok"
         except S._SocketFail:
             sock = None
@@ -294,13 +299,14 @@ def connect_each(rep, tier):
             for create_ok in itertools.product((True, False), repeat=naddr):
                 for v6 in ((False, True) if naddr else (False,)):
                     for connect_ok in itertools.product((True, False), repeat=naddr):
-                        complaint, exp, res, log = judge_connect(resolve_ok, create_ok, connect_ok, v6)
+                      for secure in (False, True):
+                        complaint, exp, res, log = judge_connect(resolve_ok, create_ok, connect_ok, v6, secure)
                         n_cases += 1
-                        rep.add_case(("connect_each", naddr, resolve_ok, create_ok, connect_ok, v6))
+                        rep.add_case(("connect_each", naddr, resolve_ok, create_ok, connect_ok, v6, secure))
                         if complaint:
-                            rep.violation("_connect_sock: " + complaint, scenario=dict(kind="connect_each", resolve_ok=resolve_ok, create_ok=list(create_ok), connect_ok=list(connect_ok), v6=v6),
+                            rep.violation("_connect_sock%s: " % (" (TLS)" if secure else "") + complaint, scenario=dict(kind="connect_each", resolve_ok=resolve_ok, create_ok=list(create_ok), connect_ok=list(connect_ok), v6=v6, secure=secure),
                                           expected=exp, actual=dict(result=res, log=log), family="C09:connect-each-address")
-    rep.families.append(dict(name="C09:connect-each-address", cases=n_cases, rule="real WebsocketSession._connect_sock against a fake socket module: all outcome patterns (resolver ok/fail, per-address socket()/connect() ok/fail, IPv4-only or alternating IPv6/IPv4 answers) for up to %d addresses" % (4 if tier == "quick" else 5), exhaustive=True))
+    rep.families.append(dict(name="C09:connect-each-address", cases=n_cases, rule="real WebsocketSession._connect_sock against a fake socket module: all outcome patterns (resolver ok/fail, per-address socket()/connect() ok/fail, IPv4-only or alternating IPv6/IPv4 answers, plain and with ssl=True) for up to %d addresses" % (4 if tier == "quick" else 5), exhaustive=True))
     rep.exhaustive["connect outcome patterns"] = True
 
 
@@ -379,7 +385,7 @@ def replay(body):
         print("REPLAY:", ("VIOLATION reproduced: %s" % bad) if bad else "property holds on this input")
         return 1 if bad else 0
     if sc.get("kind") == "connect_each":
-        complaint, exp, res, log = judge_connect(sc["resolve_ok"], sc["create_ok"], sc["connect_ok"], bool(sc.get("v6")))
+        complaint, exp, res, log = judge_connect(sc["resolve_ok"], sc["create_ok"], sc["connect_ok"], bool(sc.get("v6")), bool(sc.get("secure")))
         print("socket module calls:", log)
         print("REPLAY:", ("VIOLATION reproduced: %s" % complaint) if complaint else "property holds on this input")
         return 1 if complaint else 0
